@@ -342,23 +342,25 @@ def run_property(modname: str, tier: str, seed: int, only: Optional[str] = None)
         by_sig: Dict[str, dict] = {}
         for v in res.violations:
             by_sig.setdefault(v["signature"], v)
-        reported = 0
+        to_report = []
         for sig, v in by_sig.items():
             entry = match_known(known, pid, sig)
             if entry is not None:
                 known_hit[sig] = entry
                 continue
-            if reported >= MAX_REPORTED:
-                continue
-            reported += 1
+            if len(to_report) < MAX_REPORTED:
+                to_report.append((sig, v, write_replay(pid, modname, name, seed, v)))
+        # every reported violation is re-executed in a fresh interpreter (in parallel)
+        from concurrent.futures import ThreadPoolExecutor
+
+        with ThreadPoolExecutor(max_workers=min(NPROC, 12)) as ex:
+            fresh_all = list(ex.map(lambda it: None if it[0] == "harness_crash" else replay_in_fresh_interpreter(it[2]), to_report))
+        for (sig, v, path), fresh in zip(to_report, fresh_all):
             if sig == "harness_crash":
-                path = write_replay(pid, modname, name, seed, v)
                 lines.append(f"VIOLATION property={pid} replay={path}")
                 sys.stderr.write(v["detail"] + "\n")
                 exit_code = 1
                 continue
-            path = write_replay(pid, modname, name, seed, v)
-            fresh = replay_in_fresh_interpreter(path)
             if fresh is None or sig not in fresh:
                 # not reproduced from a fresh process: the execution depended on state
                 # left behind in the worker -> that is itself reported (never dropped)
@@ -368,7 +370,7 @@ def run_property(modname: str, tier: str, seed: int, only: Optional[str] = None)
                     f"(fresh saw {fresh}); reported as history-dependent\n"
                 )
             lines.append(f"VIOLATION property={pid} replay={path}")
-            sys.stderr.write(f"[{pid}/{name}] {v['clause']}: {json.dumps(v['detail'], default=str)[:600]}\n")
+            sys.stderr.write(f"[{pid}/{name}] {v['clause']} [{sig}]: {json.dumps(v['detail'], default=str)[:600]}\n")
             exit_code = 1
         total.merge(res)
 
